@@ -10,6 +10,7 @@ import PtModel.Affine
 import PtModel.Names
 import PtModel.Shape
 import PtModel.HandleKernel
+import PtModel.HandleRaise
 import PtModel.HandleDist
 import PtModel.HandleEq
 import PtModel.HandleMapper
@@ -177,6 +178,10 @@ def handle (q : Sx) : String :=
      | none => "err:parse")
   | .list (.atom "names" :: args) =>
     (match handleNames args with
+     | some r => "ok " ++ r
+     | none => "err:parse")
+  | .list (.atom "raise" :: args) =>
+    (match handleRaise args with
      | some r => "ok " ++ r
      | none => "err:parse")
   | .list (.atom "kernel" :: args) =>
